@@ -428,7 +428,14 @@ theorem costOK : ∀ (A : Op R), A.inScope = true → A.wf = true → CostOK A
   | adjoint A, hs, _ => by simp [Op.inScope] at hs
   | sliced A s0 s1, hs, _ => by simp [Op.inScope] at hs
   | concat ax Ms, hs, _ => by simp [Op.inScope] at hs
-  | house dt n v beta, hs, _ => by simp [Op.inScope] at hs
+  | house dt n v beta, hs, _ => by
+    simp only [Op.inScope, decide_eq_true_eq] at hs
+    refine ⟨by simp [Op.rows, Op.vol], by simp [Op.cols, Op.vol], ?_⟩
+    intro b s h
+    simp only [Op.allocs, List.mem_cons, List.not_mem_nil, or_false] at h
+    simp only [Op.vol, Op.leafStorage]
+    have h1 : b ≤ n * b := Nat.le_mul_of_pos_left b hs
+    rcases h with rfl | rfl | rfl | rfl | rfl | rfl <;> omega
 termination_by A => sizeOf A
 decreasing_by
   all_goals simp_wf
@@ -583,7 +590,7 @@ theorem square_vol : ∀ (A : Op R), A.inScope = true → A.wf = true → A.squa
   | adjoint A, hs, _, _ => by simp [Op.inScope] at hs
   | sliced A s0 s1, hs, _, _ => by simp [Op.inScope] at hs
   | concat ax Ms, hs, _, _ => by simp [Op.inScope] at hs
-  | house dt n v beta, hs, _, _ => by simp [Op.inScope] at hs
+  | house dt n v beta, _, _, _ => by simp [Op.rows, Op.cols, Op.vol]
 termination_by A => sizeOf A
 decreasing_by
   all_goals simp_wf
